@@ -281,6 +281,33 @@ impl Get for Impl {
 //@@ endfn
 }
 }
+pub mod f_flat_map {
+use super::*;
+//@@ item src/functions/list/functional/flat_map.rs :: fn get :: struct Impl
+//@@ rewrite pub_tuple pub_struct
+//@@ enditem
+pub open spec fn list_value(o: Option<JsonValue>) -> Option<Vec<JsonValue>> { match o { Some(JsonValue::Array(l)) => Some(l), _ => None } }
+impl Get for Impl {
+    open spec fn get_spec(&self, value: &Context) -> Option<JsonValue> {
+        match arg(self.0@, value, 0) {
+            Some(JsonValue::Array(l)) => Some(json_array(vitc::flat_spec(vitc::filter_map_spec(l@, |v: JsonValue| list_value(arg(self.0@, &ctx_with_input(*value, v), 1)))))),
+            _ => None,
+        }
+    }
+//@@ fn f.flat_map = src/functions/list/functional/flat_map.rs :: fn get :: impl Get for Impl :: fn get
+//@@ safety C04 C12 C05
+//@@ rewrite filter_map_collect
+//@@ post doc "(flat_map l f) is the concatenation, in list order, of the lists f gives on each element of l (element as input, the caller's input as parent); elements on which f gives nothing or a non-list are left out; nothing for a non-list"
+//@@ body-start
+        broadcast use group_json_names;
+//@@ insert-after ".filter_map(|v"
+ : JsonValue
+//@@ insert-after ".filter_map(|v|"
+ -> (o: Option<Vec<JsonValue>>)
+                                ensures o == list_value(arg(self.0@, &ctx_with_input(*value, v), 1)),
+//@@ endfn
+}
+}
 pub mod f_filter {
 use super::*;
 //@@ item src/functions/list/functional/filter.rs :: fn get :: struct Impl
@@ -304,6 +331,216 @@ impl Get for Impl {
 //@@ insert-after ".filter(|v|"
  -> (o: bool)
                                 ensures o == (arg(self.0@, &ctx_with_input(*value, *v), 1) == Some(JsonValue::Boolean(true))),
+//@@ endfn
+}
+}
+
+// ---- group_by (src/functions/list/functional/group_by.rs): the elements grouped by a string key, groups in first-seen order ----
+//@@ include lemmas/groups.rs
+pub mod vgrp {
+use vstd::prelude::*;
+use super::jt::*;
+use super::group_members;
+use super::groups_view;
+#[verifier::external_body]
+pub fn groups_to_map(g: &IndexMap<String, Vec<JsonValue>>) -> (r: IndexMap<String, JsonValue>)
+    ensures r.entries() == group_members(groups_view(g.entries())),
+{ unimplemented!() }
+}
+impl<'a, K, T> Entry<'a, K, Vec<T>> {
+    #[verifier::external_body]
+    pub fn or_insert_with_vec_new(self) -> (r: &'a mut Vec<T>)
+        ensures
+            im_has(self.before(), self.key()) ==> *r == self.before()[im_idx(self.before(), self.key())].1,
+            !im_has(self.before(), self.key()) ==> r@ == Seq::<T>::empty(),
+            self.fin() == im_insert(self.before(), self.key(), *final(r)),
+    { unimplemented!() }
+}
+pub open spec fn gb_from(args: Seq<Rc<dyn Get>>, ctx: Context, l: Seq<JsonValue>, i: int, gs: Seq<(String, Seq<JsonValue>)>) -> Option<Seq<(String, Seq<JsonValue>)>>
+    decreases l.len() - i
+{
+    if i >= l.len() || i < 0 { Some(gs) } else {
+        match arg(args, &ctx_with_input(ctx, l[i]), 1) {
+            Some(JsonValue::String(k)) => gb_from(args, ctx, l, i + 1, group_add(gs, k, l[i])),
+            _ => None,
+        }
+    }
+}
+pub mod f_group_by {
+use super::*;
+//@@ item src/functions/list/functional/group_by.rs :: fn get :: struct Impl
+//@@ rewrite pub_tuple pub_struct
+//@@ enditem
+impl Get for Impl {
+    open spec fn get_spec(&self, value: &Context) -> Option<JsonValue> {
+        match arg(self.0@, value, 0) {
+            Some(JsonValue::Array(l)) => match gb_from(self.0@, *value, l@, 0, Seq::empty()) {
+                Some(gs) => Some(json_object(group_members(gs))),
+                None => None,
+            },
+            _ => None,
+        }
+    }
+//@@ fn f.group_by = src/functions/list/functional/group_by.rs :: fn get :: impl Get for Impl :: fn get
+//@@ safety C04 C12 C05
+//@@ rewrite or_insert_with_vec_new groups_to_map
+//@@ post doc "(group_by l f) is the object whose keys are the values of f on the elements of l (element as input, the caller's input as parent) in first-seen order, each holding the list of the elements with that key in list order; nothing when l is not a list or f gives something that is not a string on some element"
+//@@ body-start
+        broadcast use group_json_names, super::cl::group_clone_is_copy, axiom_default_vec;
+        let ghost ctx = *value;
+//@@ loop 1 iter it
+                            invariant
+                                ctx == *value, it.seq() == list@, 0 <= it.index@ <= list@.len(),
+                                arg(self.0@, value, 0) == Some(JsonValue::Array(list)),
+                                gb_from(self.0@, ctx, list@, it.index@, groups_view(groups.entries())) == gb_from(self.0@, ctx, list@, 0, Seq::empty()),
+//@@ before-loop 1
+                        proof { assert(groups_view(groups.entries()) =~= Seq::<(String, Seq<JsonValue>)>::empty()); }
+//@@ loop-start 1
+                            broadcast use group_json_names, super::cl::group_clone_is_copy, axiom_default_vec, axiom_im_distinct;
+                            let ghost e0 = groups.entries();
+                            proof { assert(groups.distinct()); assert(list@[it.index@] == item); }
+//@@ before "return None;"
+                                proof { assert(gb_from(self.0@, ctx, list@, it.index@, groups_view(e0)) is None); }
+//@@ before "let values = groups.entry(key)"
+                            let ghost k0 = key;
+//@@ after "values.push(item);"
+                            proof {
+                                let e2 = groups.entries();
+                                let nv = if im_has(e0, k0) { e2[im_idx(e0, k0)].1 } else { e2.last().1 };
+                                lemma_group_insert(e0, e2, k0, nv, item);
+                            }
+//@@ after-loop 1
+                        proof { assert(groups_view(groups.entries()) =~= gb_from(self.0@, ctx, list@, 0, Seq::empty())->0); }
+//@@ endfn
+}
+}
+
+// ---- the object functional four: map_values, map_keys, filter_values, filter_keys (src/functions/object/functional) ----
+impl vstd::std_specs::convert::FromSpecImpl<bool> for JsonValue {
+    open spec fn obeys_from_spec() -> bool { true }
+    open spec fn from_spec(v: bool) -> Self { JsonValue::Boolean(v) }
+}
+impl From<bool> for JsonValue {
+//@@ fn jv.from_bool = src/json_value.rs :: impl From<bool> for JsonValue :: fn from
+//@@ safety C04
+//@@ post from "the conversion of a bool is the JSON boolean with that value"
+//@@ endfn
+}
+impl vstd::std_specs::convert::FromSpecImpl<&String> for JsonValue {
+    open spec fn obeys_from_spec() -> bool { true }
+    open spec fn from_spec(v: &String) -> Self { JsonValue::String(*v) }
+}
+impl From<&String> for JsonValue {
+//@@ fn jv.from_string_ref = src/json_value.rs :: impl From<&String> for JsonValue :: fn from
+//@@ safety C04
+//@@ post from "a &String converts to the JSON string with that text"
+//@@ body-start
+        broadcast use cl::group_clone_is_copy;
+//@@ endfn
+}
+pub mod f_map_values {
+use super::*;
+//@@ item src/functions/object/functional/map_values.rs :: fn get :: struct Impl
+//@@ rewrite pub_tuple pub_struct
+//@@ enditem
+pub open spec fn with_value(k: String, o: Option<JsonValue>) -> Option<(String, JsonValue)> { match o { Some(v) => Some((k, v)), None => None } }
+impl Get for Impl {
+    open spec fn get_spec(&self, value: &Context) -> Option<JsonValue> {
+        match arg(self.0@, value, 0) {
+            Some(JsonValue::Object(m)) => Some(json_object(vitm::im_from(vitc::filter_map_spec(m.entries(), |kv: (String, JsonValue)| with_value(kv.0, arg(self.0@, &ctx_with_input(*value, kv.1), 1)))))),
+            _ => None,
+        }
+    }
+//@@ fn f.map_values = src/functions/object/functional/map_values.rs :: fn get :: impl Get for Impl :: fn get
+//@@ safety C04 C12 C05
+//@@ rewrite entries_filter_map tuple_param_owned collect_indexmap option_map_pair
+//@@ post doc "(map_values o f) is the object whose members are, in member order, k: f(v) for every member k: v of o (value as input, the caller's input as parent), members on which f gives nothing left out; nothing for a non-object"
+//@@ body-start
+        broadcast use group_json_names;
+//@@ insert-after ".filter_map(|(k, v)|"
+ -> (o: Option<(String, JsonValue)>)
+                                ensures o == with_value(kv__.0, arg(self.0@, &ctx_with_input(*value, kv__.1), 1)),
+//@@ insert-after ".filter_map(|(k, v)| {"
+ let (k, v) = kv__;
+//@@ endfn
+}
+}
+pub mod f_map_keys {
+use super::*;
+//@@ item src/functions/object/functional/map_keys.rs :: fn get :: struct Impl
+//@@ rewrite pub_tuple pub_struct
+//@@ enditem
+pub open spec fn with_key(o: Option<JsonValue>, v: JsonValue) -> Option<(String, JsonValue)> { match o { Some(JsonValue::String(k)) => Some((k, v)), _ => None } }
+impl Get for Impl {
+    open spec fn get_spec(&self, value: &Context) -> Option<JsonValue> {
+        match arg(self.0@, value, 0) {
+            Some(JsonValue::Object(m)) => Some(json_object(vitm::im_from(vitc::filter_map_spec(m.entries(), |kv: (String, JsonValue)| with_key(arg(self.0@, &ctx_with_input(*value, JsonValue::String(kv.0)), 1), kv.1))))),
+            _ => None,
+        }
+    }
+//@@ fn f.map_keys = src/functions/object/functional/map_keys.rs :: fn get :: impl Get for Impl :: fn get
+//@@ safety C04 C12 C05
+//@@ rewrite entries_filter_map tuple_param_owned collect_indexmap
+//@@ post doc "(map_keys o f) is the object built by inserting, in member order, f(k): v for every member k: v of o (the key as a string as input, the caller's input as parent); members on which f gives nothing or a non-string are left out, and a key produced twice keeps its first position and takes the last value; nothing for a non-object"
+//@@ body-start
+        broadcast use group_json_names;
+//@@ insert-after ".filter_map(|(k, v)|"
+ -> (o: Option<(String, JsonValue)>)
+                                ensures o == with_key(arg(self.0@, &ctx_with_input(*value, JsonValue::String(kv__.0)), 1), kv__.1),
+//@@ insert-after ".filter_map(|(k, v)| {"
+ let (k, v) = kv__;
+//@@ endfn
+}
+}
+pub mod f_filter_values {
+use super::*;
+//@@ item src/functions/object/functional/filter_values.rs :: fn get :: struct Impl
+//@@ rewrite pub_tuple pub_struct
+//@@ enditem
+impl Get for Impl {
+    open spec fn get_spec(&self, value: &Context) -> Option<JsonValue> {
+        match arg(self.0@, value, 0) {
+            Some(JsonValue::Object(m)) => Some(json_object(vitm::im_from(m.entries().filter(|kv: (String, JsonValue)| arg(self.0@, &ctx_with_input(*value, kv.1), 1) == Some(JsonValue::Boolean(true)))))),
+            _ => None,
+        }
+    }
+//@@ fn f.filter_values = src/functions/object/functional/filter_values.rs :: fn get :: impl Get for Impl :: fn get
+//@@ safety C04 C12 C05
+//@@ rewrite entries_filter tuple_param_ref collect_indexmap
+//@@ post doc "(filter_values o f) is the object with the members of o, in member order, on whose value f (value as input, the caller's input as parent) gives exactly true; nothing for a non-object"
+//@@ body-start
+        broadcast use group_json_names, super::cl::group_clone_is_copy, group_json_eq;
+//@@ insert-after ".filter(|(_, v)|"
+ -> (o: bool)
+                                ensures o == (arg(self.0@, &ctx_with_input(*value, kv__.1), 1) == Some(JsonValue::Boolean(true))),
+//@@ insert-after ".filter(|(_, v)| {"
+ let v = &kv__.1;
+//@@ endfn
+}
+}
+pub mod f_filter_keys {
+use super::*;
+//@@ item src/functions/object/functional/filter_keys.rs :: fn get :: struct Impl
+//@@ rewrite pub_tuple pub_struct
+//@@ enditem
+impl Get for Impl {
+    open spec fn get_spec(&self, value: &Context) -> Option<JsonValue> {
+        match arg(self.0@, value, 0) {
+            Some(JsonValue::Object(m)) => Some(json_object(vitm::im_from(m.entries().filter(|kv: (String, JsonValue)| arg(self.0@, &ctx_with_input(*value, JsonValue::String(kv.0)), 1) == Some(JsonValue::Boolean(true)))))),
+            _ => None,
+        }
+    }
+//@@ fn f.filter_keys = src/functions/object/functional/filter_keys.rs :: fn get :: impl Get for Impl :: fn get
+//@@ safety C04 C12 C05
+//@@ rewrite entries_filter tuple_param_ref collect_indexmap
+//@@ post doc "(filter_keys o f) is the object with the members of o, in member order, on whose key (as a string) f (key as input, the caller's input as parent) gives exactly true; nothing for a non-object"
+//@@ body-start
+        broadcast use group_json_names, super::cl::group_clone_is_copy, group_json_eq;
+//@@ insert-after ".filter(|(k, _)|"
+ -> (o: bool)
+                                ensures o == (arg(self.0@, &ctx_with_input(*value, JsonValue::String(kv__.0)), 1) == Some(JsonValue::Boolean(true))),
+//@@ insert-after ".filter(|(k, _)| {"
+ let k = &kv__.0;
 //@@ endfn
 }
 }
